@@ -255,8 +255,22 @@ def depfile_deps(c):
         toks.append(cur)
     for k, t in enumerate(toks):
         if t.endswith(":"):
-            return [x for x in toks[k + 1:] if x != "\\"]
+            return [lexical_norm(x) for x in toks[k + 1:] if x != "\\"]
     return []
+
+
+def lexical_norm(p):
+    """the name a path spelling stands for ('.', empty and resolvable '..' components removed) - commands may report what they
+    read under any spelling"""
+    out = []
+    for c in p.split("/"):
+        if c in ("", "."):
+            continue
+        if c == ".." and out and out[-1] != "..":
+            out.pop()
+        else:
+            out.append(c)
+    return ("/" if p.startswith("/") else "") + "/".join(out) or "."
 
 
 def discovered(graph, st, recs, world_files, world_mtimes=None):
